@@ -13,4 +13,43 @@ CHECKS = {
         'note': 'Trusts the Earley recogniser (80 lines, self-tested) and that Parser._grammar.Productions is the '
                 'grammar; lexer acceptance is taken as given apart from the tiling clause.',
     },
+    'C01': {
+        'technique': 'property-based round-trip testing: accepted statements (test corpus, random derivations of the '
+                     'live grammar in tame mode, accepted token mutations) x 3 dialects; oracle = structural tree '
+                     'identity by reflection after print -> re-parse, print idempotence, copy() identity',
+        'level': 'Sampled search over the accepted language with an exact round-trip oracle (structural identity of '
+                 'every node field, stronger than the library\'s own to_tree/__eq__). Known printer defects are '
+                 'matched by failure kind + tree-feature tags and excluded so that the search continues behind them.',
+        'note': 'The first parse is only a filter. Keyword-spelled identifiers via `id: KEYWORD` productions, '
+                'statements as sub-queries and token-soup raw queries are excluded by construction in the registered '
+                'run (tame mode; counted); struct oracle trusts Python reflection only.',
+    },
+    'C02': {
+        'technique': 'property-based robustness testing / fuzzing with structured generators: grammar derivations, '
+                     'token mutations of valid statements, random lexeme sequences, SQL-flavoured and Unicode text; '
+                     'oracle = outcome is a tree, ParsingException or LexError (exception class + innermost frame '
+                     'as failure site), 30 s watchdog for termination',
+        'level': 'Sampled search; the crash oracle is exact. Termination is observed under a watchdog, not proved.',
+        'note': 'Known internal-error sites of the pinned tree are listed per (exception type, function) and '
+                'skipped; any other site is a violation.',
+    },
+    'C06': {
+        'technique': 'property-based differential execution: typed SQL model (joins of every kind, sub-selects, CTEs, '
+                     'set operations, grouping, ordering with NULLS, LIMIT/OFFSET, windows, DML/DDL) x generated table '
+                     'contents x {sqlite, mysql, postgresql} renderings, original vs rendered text executed on two '
+                     'identical sqlite3 databases, order-aware row comparison / table-state comparison',
+        'level': 'Sampled search over statements and small table contents with the real SQLite engine as reference; '
+                 'tiny value domains make NULL/duplicate/empty-table corner cases frequent.',
+        'note': 'Trusts sqlite3 and the generator\'s typing discipline (ground truth must execute; otherwise the case '
+                'is dropped and counted). mysql/postgresql output is judged only when SQLite executes it; MSSQL and '
+                'Oracle output cannot be executed here.',
+    },
+    'C16': {
+        'technique': 'property-based round-trip testing: hostile inner query texts (string literals of every kind, '
+                     '@variables, odd numbers, nested parentheses, comments, multi-line layouts) x 48 embedding command '
+                     'templates; oracle = own literal-aware scanner (stored text == inner text up to blanks/comments) '
+                     'and same parse tree for stored and inner text',
+        'level': 'Sampled search plus a fixed hostile list run against every template; exact textual oracle.',
+        'note': 'Trusts the 150-line literal-aware scanner (self-tested). Only the mindsdb dialect has these commands.',
+    },
 }
